@@ -118,3 +118,101 @@ Theorem call_options_local defaults c1 c2 ct :
   call_headers defaults c1 ct = (s "Content-Type", ct) :: defaults ++ c1 /\
   (c1 = c2 -> call_headers defaults c1 ct = call_headers defaults c2 ct).
 Proof. split; [reflexivity|now intros ->]. Qed.
+
+(* ================================================================================================
+   Sibling routes and call sequences (model: second half of Conc.v)
+   ================================================================================================ *)
+From Sebuf Require Import Headers.
+From SebufProofs Require Import TextFacts.
+
+Definition mk_route (svc : list header) (mh : str * list header) : route :=
+  {| rt_name := fst mh; rt_svc := svc; rt_mth := snd mh |}.
+
+Lemma register_routes_spec svc methods : forall var acc,
+  register_routes svc var methods acc = rev acc ++ map (mk_route svc) methods.
+Proof.
+  induction methods as [|[m hs] r IH]; intros var acc; cbn.
+  - now rewrite app_nil_r.
+  - rewrite IH. cbn. now rewrite <- app_assoc.
+Qed.
+
+Lemma find_route_nodup svc methods m hs :
+  NoDup (map fst methods) -> In (m, hs) methods ->
+  find_route (map (mk_route svc) methods) m = Some (mk_route svc (m, hs)).
+Proof.
+  unfold find_route. induction methods as [|[m' hs'] r IH]; intros Hnd Hin; [contradiction|].
+  cbn in Hnd. inversion Hnd as [|? ? Hnotin Hnd']; subst. cbn.
+  destruct (str_eqb m' m) eqn:E.
+  - apply str_eqb_eq in E. subst m'. destruct Hin as [Heq|Hin].
+    + now inversion Heq.
+    + exfalso. apply Hnotin. apply in_map_iff. exists (m, hs). split; [reflexivity|exact Hin].
+  - destruct Hin as [Heq|Hin].
+    + inversion Heq; subst. rewrite str_eqb_refl in E. discriminate.
+    + apply IH; assumption.
+Qed.
+
+(* Per-route configuration is never shared: whatever else the service registers (before or after,
+   with whatever headers), a request on route m is judged by the service's declaration and m's OWN
+   declaration only. *)
+Theorem routes_config_isolated svc var methods m hs rq bv bok :
+  NoDup (map fst methods) -> In (m, hs) methods ->
+  serve_route (register_routes svc var methods []) m rq bv bok = Some (go_serve svc hs rq bv bok).
+Proof.
+  intros Hnd Hin. unfold serve_route. rewrite register_routes_spec.
+  change (rev (@nil route)) with (@nil route). rewrite app_nil_l.
+  rewrite (find_route_nodup svc methods m hs Hnd Hin). reflexivity.
+Qed.
+
+(* ... which is the outcome of the same request on a service that registers m alone *)
+Corollary route_as_alone svc var var' methods m hs rq bv bok :
+  NoDup (map fst methods) -> In (m, hs) methods ->
+  serve_route (register_routes svc var methods []) m rq bv bok =
+  serve_route (register_routes svc var' [(m, hs)] []) m rq bv bok.
+Proof.
+  intros Hnd Hin. rewrite (routes_config_isolated svc var methods m hs rq bv bok Hnd Hin).
+  unfold serve_route, find_route. cbn. now rewrite str_eqb_refl.
+Qed.
+
+(* ---- call sequences ------------------------------------------------------------------------------ *)
+Lemma do_call_world w c : fst (do_call w c) = w.
+Proof. unfold do_call. destruct (nth_error w (cc_client c)); reflexivity. Qed.
+
+Lemma run_calls_cons w c r : run_calls w (c :: r) = snd (do_call w c) :: run_calls w r.
+Proof.
+  cbn. pose proof (do_call_world w c) as Hw. destruct (do_call w c) as [w' o]. cbn in *. now subst.
+Qed.
+
+Lemma run_calls_app w pre : forall post, run_calls w (pre ++ post) = run_calls w pre ++ run_calls w post.
+Proof.
+  induction pre as [|c r IH]; intros post; [reflexivity|].
+  rewrite <- app_comm_cons. rewrite !run_calls_cons. cbn. now rewrite IH.
+Qed.
+
+Lemma run_calls_length w cs : List.length (run_calls w cs) = List.length cs.
+Proof. induction cs as [|c r IH]; [reflexivity|]. rewrite run_calls_cons. cbn. now rewrite IH. Qed.
+
+(* History independence: whatever was called before (and however those calls ended: not marshalled,
+   not created, transport failure, 4xx, 5xx, undecodable answer, success; with whatever per-call
+   options; on whichever instance) and whatever is called afterwards, a call observes exactly what
+   it observes when it is the only call made on freshly constructed clients. *)
+Theorem history_independent w pre c post :
+  nth_error (run_calls w (pre ++ c :: post)) (List.length pre) = nth_error (run_calls w [c]) 0.
+Proof.
+  rewrite run_calls_app. rewrite nth_error_app2; rewrite run_calls_length; [|lia].
+  rewrite Nat.sub_diag. rewrite !run_calls_cons. reflexivity.
+Qed.
+
+(* ... and it depends on its own client instance only *)
+Theorem own_instance_only w w' c :
+  nth_error w (cc_client c) = nth_error w' (cc_client c) -> snd (do_call w c) = snd (do_call w' c).
+Proof. intros E. unfold do_call. rewrite E. destruct (nth_error w' (cc_client c)); reflexivity. Qed.
+
+(* a call without per-call options puts exactly Content-Type and the instance's defaults on the wire *)
+Theorem plain_call_defaults w c cl :
+  nth_error w (cc_client c) = Some cl -> cc_ct c = [] -> cc_headers c = [] -> stage_sends (cc_stage c) = true ->
+  snd (do_call w c) =
+  Some {| co_sent := Some (hset_all ((s "Content-Type", cl_ct cl) :: cl_defaults cl)); co_ok := stage_ok (cc_stage c) |}.
+Proof.
+  intros E Hct Hh Hs. unfold do_call. rewrite E. cbn. rewrite Hs.
+  unfold wire_headers, eff_ct, call_headers. rewrite Hct, Hh. now rewrite app_nil_r.
+Qed.
